@@ -690,7 +690,8 @@ func (s *scanner) stateAnyAnnotationStart(c byte) (st state, err error) {
 }
 
 func (s *scanner) stateInlineAnnotation(c byte) (state, error) {
-	if bytes.IsBlank(c) {
+	// Only spaces are skipped: a new line ends an (empty) inline annotation.
+	if bytes.IsSpace(c) {
 		return scanSkip, nil
 	}
 
